@@ -330,7 +330,7 @@ func loggerPart(r *seq.Run, tier string) {
 		kind string
 		lvl  zerolog.Level
 	}
-	ops := []op{{"ev", zerolog.DebugLevel}, {"ev", zerolog.InfoLevel}, {"ev", zerolog.ErrorLevel}, {"ev", zerolog.Disabled}, {"ev", zerolog.NoLevel}, {"dis", 0}, {"glob", zerolog.InfoLevel}, {"glob", zerolog.TraceLevel}, {"tick", 0}}
+	ops := []op{{"ev", zerolog.DebugLevel}, {"ev", zerolog.InfoLevel}, {"ev", zerolog.ErrorLevel}, {"ev", zerolog.Disabled}, {"ev", zerolog.NoLevel}, {"write", 0}, {"print", 0}, {"dis", 0}, {"glob", zerolog.InfoLevel}, {"glob", zerolog.TraceLevel}, {"tick", 0}}
 	L := 5
 	if tier == "thorough" {
 		L = 7
@@ -361,6 +361,26 @@ func loggerPart(r *seq.Run, tier string) {
 						// WithLevel(Disabled) is never written and, like every event the gate rejects, costs no budget
 						if o.lvl != zerolog.Disabled && o.lvl >= loggerLevel && o.lvl >= glob {
 							if disabled || m.sample(o.lvl, clock) {
+								want = append(want, tag)
+							}
+						}
+					case "write", "print":
+						// the logger as an io.Writer (the standard library's log bridge) emits one NoLevel event, Print one
+						// debug event: each consults the sampler exactly once
+						tag := fmt.Sprintf("e%d", i)
+						lvl := zerolog.NoLevel
+						if o.kind == "write" {
+							hist = append(hist, fmt.Sprintf("Write(%s)", tag))
+							wlg := lg.With().Str("t", tag).Logger()
+							wlg.Write([]byte("w"))
+						} else {
+							lvl = zerolog.DebugLevel
+							hist = append(hist, fmt.Sprintf("Print(%s)", tag))
+							plg := lg.With().Str("t", tag).Logger()
+							plg.Print("p")
+						}
+						if lvl >= loggerLevel && lvl >= glob {
+							if disabled || m.sample(lvl, clock) {
 								want = append(want, tag)
 							}
 						}
